@@ -111,6 +111,7 @@ func NewWordList(list []string) (*WordList, error) {
 		ourWords = append(ourWords, w)
 
 	}
+	ourWords = verifCanonical(ourWords)
 
 	if len(list) > len(ourWords) {
 		// We just need to log a warning here. Not sure how we are handling that.
